@@ -9,7 +9,7 @@ R17.2 every key of the parser's literal name tables is bound to the library
 R17.3 every key of the parser's constant table is bound to the conventional
       constant.
 """
-from selib.program import walk, show, short
+from selib.program import strip_type,  walk, show, short
 from selib.tables import string_tables
 from selib.build import AnalysisBroken
 
@@ -103,6 +103,37 @@ def run(loader, R, tier):
 
     from selib.numlit import literal_rules
     literal_rules(prog, R, "R17.1", "R17.4")
+
+    # ---------------------------------------------------------- R17.5
+    # an exact literal is converted from its text: an Integer built from a
+    # floating-point intermediate loses every digit beyond 2^53
+    R.rule("R17.5", "the parser never builds an Integer from a "
+                    "floating-point intermediate")
+    nint = 0
+    for u, f in sorted(prog.functions.items(), key=lambda kv: kv[1]["qn"]):
+        if f.get("cls") != "SymEngine::Parser" or not f.get("body") \
+                or f.get("dependent"):
+            continue
+        for n in walk(f["body"]):
+            if not (n.get("k") == "call" and n.get("n") in (
+                    "integer", "rational") and n.get("a")):
+                continue
+            nint += 1
+            key = "%s@%s" % (short(f["qn"]), n.get("l"))
+            fl = [x for a in n["a"] for x in walk(a)
+                  if x.get("k") in ("ref", "mem", "call", "mcall")
+                  and strip_type(x.get("t") or "") in (
+                      "double", "float", "long double")]
+            R.instance("R17.5", key, sample={"call": show(n)[:80]})
+            if fl:
+                R.violation(
+                    "R17.5", short(f["qn"]), prog.loc(f, n.get("l")),
+                    "%s builds an exact number from the floating-point "
+                    "value `%s` (`%s`): digits beyond the 53-bit mantissa "
+                    "are rounded away, so a long integer literal becomes a "
+                    "different integer" % (short(f["qn"]),
+                                           show(fl[0])[:30], show(n)[:60]))
+    R.floor("exact-number constructions in the parser", nint, 1)
 
     # ---------------------------------------------------------- R17.2
     fnames = set()
